@@ -362,7 +362,7 @@ def build_unit_text(unit, xdir, specs, report):
     head.append('#ifndef CASE_PRED\n#define CASE_PRED 1\n#endif')
     head.append('#include "l0.h"')
     head.append('#include "inv.h"')
-    head.append('uint64_t g_N, g_N2; struct vsnap pre_self, pre_o; struct gsnap pre_g; _Bool g_alias; uint64_t g_src, g_pos, g_pos2, g_cnt; E *pre_p1, *pre_p2; void *g_other;')
+    head.append('uint64_t g_N, g_N2; struct vsnap pre_self, pre_o; struct gsnap pre_g; _Bool g_alias; uint64_t g_src, g_pos, g_pos2, g_cnt; E *pre_p1, *pre_p2; void *g_other; int g_int0;')
     nhead = sum(h.count('\n') + 1 for h in head)
     body = '\n'.join(head) + '\n' + text + '\n#include "l0_globals.c"\n' + 'void harness(void) {\n%s\n  l0_havoc();\n  %s\n}\n' % (decls, call)
     cmap2 = {ln + nhead: v for ln, v in cmap.items() if ln not in ('ordinals', 'fnprops')}
